@@ -263,7 +263,7 @@ func (te *tableEngine) batchAddPlayers(players []JoinPlayer) error {
 	}
 
 	te.table.State.SeatMap = newSeatMap
-	te.table.State.PlayerStates = append(te.table.State.PlayerStates, newPlayers...)
+	te.setPlayerList(append(te.table.State.PlayerStates, newPlayers...))
 
 	// 如果時間到了還沒有入座則自動入座
 	te.playersAutoIn()
@@ -304,7 +304,7 @@ func (te *tableEngine) playersAutoIn() {
 	te.rg.OnCompleted(func(rg *syncsaga.ReadyGroup) {
 		isInCount := 0
 		alivePlayers := 0
-		for _, player := range te.table.State.PlayerStates {
+		for _, player := range te.playerList() {
 			// 如果時間到了還沒有入座則自動入座
 			if !player.IsIn {
 				te.PlayerJoin(player.PlayerID)
@@ -350,6 +350,30 @@ func (te *tableEngine) playersAutoIn() {
 	te.rg.Start()
 }
 
+// playerList is the player list as read by the calls that take no engine lock (PlayerJoin, PlayerRedeemChips,
+// PlayerSettlementFinish, the auto sit-in completion). Arrivals and departures replace the slice under the engine lock;
+// an unsynchronised read of the slice header can be torn (new array, old length) and end in a wild pointer.
+func (te *tableEngine) playerList() []*TablePlayerState {
+	te.playersMu.Lock()
+	defer te.playersMu.Unlock()
+	return te.table.State.PlayerStates
+}
+
+func (te *tableEngine) setPlayerList(players []*TablePlayerState) {
+	te.playersMu.Lock()
+	te.table.State.PlayerStates = players
+	te.playersMu.Unlock()
+}
+
+func findPlayerIdx(players []*TablePlayerState, playerID string) int {
+	for idx, player := range players {
+		if player.PlayerID == playerID {
+			return idx
+		}
+	}
+	return UnsetValue
+}
+
 func (te *tableEngine) batchRemovePlayers(playerIDs []string) error {
 	// the seat manager validates the whole batch: ask it first so that a refused batch changes nothing
 	if err := te.sm.RemoveSeats(playerIDs); err != nil {
@@ -357,7 +381,7 @@ func (te *tableEngine) batchRemovePlayers(playerIDs []string) error {
 	}
 	te.verifHook("members.remove.mid")
 	newPlayerStates, newSeatMap, newGamePlayerIndexes := te.calcLeavePlayers(te.table.State.Status, playerIDs, te.table.State.PlayerStates, te.table.Meta.TableMaxSeatCount)
-	te.table.State.PlayerStates = newPlayerStates
+	te.setPlayerList(newPlayerStates)
 	te.table.State.SeatMap = newSeatMap
 	te.table.State.GamePlayerIndexes = newGamePlayerIndexes
 	return nil
